@@ -475,6 +475,35 @@ func (e *Engine) detLoop(fn *ssa.Function, li *loopInfo, h int, em map[*ssa.Func
 			}
 		}
 	}
+	// map inserts are order-free only while distinct entries go to distinct keys: an insert whose key is computed from
+	// the entry by a call (lower-casing, trimming, a look-up) can send two entries to one key, and the survivor is the
+	// one visited last; the same holds for an entry-dependent value stored under a key that does not depend on the entry
+	for bi := range body {
+		for _, in := range fn.Blocks[bi].Instrs {
+			mu, ok := in.(*ssa.MapUpdate)
+			if !ok {
+				continue
+			}
+			line := e.prog.Fset.Position(mu.Pos()).Line
+			if dep[mu.Key] {
+				k := mu.Key
+				for {
+					if c, ok := k.(*ssa.ChangeType); ok {
+						k = c.X
+						continue
+					}
+					if c, ok := k.(*ssa.Convert); ok {
+						k = c.X
+						continue
+					}
+					break
+				}
+				if _, isCall := k.(*ssa.Call); isCall && dep[mu.Value] {
+					reasons = append(reasons, fmt.Sprintf("inserts under a key computed from the entry by a call: two entries can meet on one key and the last one visited wins (line %d)", line))
+				}
+			}
+		}
+	}
 	if len(dep) > 0 {
 		for _, blk := range fn.Blocks {
 			for _, in := range blk.Instrs {
